@@ -196,7 +196,12 @@ func c07Run(t rt.TB, c c07Case) {
 		if !cat.SameTrace(got, want) {
 			class := "fault-trace-mismatch"
 			real, _, _ := c07Model(c, false)
-			if cat.SameTrace(got, real) && got.End == 0 {
+			// `real` = the model with the library's own rule for a panic inside an error /
+			// completion handler (it is swallowed). When the observed trace is exactly that,
+			// the difference to the property's reading is the listed finding - whether the
+			// stream is then left open or, further down, completed by another stage
+			// (a merged companion, a fallback).
+			if cat.SameTrace(got, real) && (got.End == 0 || c07TerminalFault(c) != "") {
 				class = "fault-in-terminal-callback-swallowed"
 			}
 			if tp := c07TerminalFault(c); tp != "" && len(c.Plan) > 1 {
